@@ -133,7 +133,12 @@ func (pr *ProcResult) InFlight() (task, op int, ok bool) {
 	return 0, 0, false
 }
 
-func (e *Env) Run(p *plan.Plan) *ProcResult { return e.RunOpt(p, 90*time.Second, "") }
+func (e *Env) Run(p *plan.Plan) *ProcResult {
+	if p.Kernel == "race" {
+		return e.RunOpt(p, 240*time.Second, "")
+	}
+	return e.RunOpt(p, 90*time.Second, "")
+}
 
 // RunOpt executes one plan in a fresh worker process.
 // RunCover executes a plan with the coverage build and returns the profile text.
